@@ -545,7 +545,9 @@ def format_table(ctx, tmpdir):
         d.save_to(p, format=fmt)
         src[fmt] = open(p, 'rb').read()
     contents = {'NoFile': None, 'SigFits': src['fits'], 'SigHdf5': src['hdf5'], 'SigOther': b'this is not a dendrogram file\n' * 4}
-    exts = {'ExtFits': ['.fits', '.fit', '.FITS'], 'ExtHdf5': ['.hdf5', '.h5', '.HDF5'], 'ExtOther': ['.dat', '', '.txt']}
+    # (only the END of the name counts: cube.fits.hdf5 is an HDF5 name, notes.hdf5.txt no dendrogram name at all)
+    exts = {'ExtFits': ['.fits', '.fit', '.FITS', '.hdf5.fits', '.h5.fit'], 'ExtHdf5': ['.hdf5', '.h5', '.HDF5', '.fits.hdf5', '.fit.h5', '.fits.gz.h5'],
+            'ExtOther': ['.dat', '', '.txt', '.fits.txt', '.hdf5.dat', '.fitsx']}
     terms, meta = [], []
     k = 0
     for ecls, elist in exts.items():
